@@ -122,12 +122,33 @@ def sqrt(a):
     key = z3.simplify(P).sexpr()
     name = GEN_BY_ARG.get(key)
     if name is None:
+        # semantic unification: reuse a generator whose argument is the same polynomial
+        for k_, (v_, P_) in GENS.items():
+            s_ = z3.Solver(); s_.set('timeout', 5000); s_.add(P != P_)
+            if s_.check() == z3.unsat: name = k_; GEN_BY_ARG[key] = name; break
+    if name is None:
         name = 'g%d' % len(GENS); GENS[name] = (z3.Real(name), P); GEN_BY_ARG[key] = name
     r = RV({frozenset([name]): ONE}, a.d)
     if a.tan is not None:
         # (sqrt u)' = u' / (2 sqrt u)
         i2 = inv(mul(RV.const(2), RV(dict(r.n), r.d), False), False)
         r.tan = {k: mul(v, i2, False) for k, v in a.tan.items()}
+    return r
+TRANS = {}   # name -> (kind, arg RV)
+def acos(a):
+    a = lift(a)
+    key = 'acos:' + z3.simplify(a.expr()).sexpr()
+    name = None
+    for k, v in TRANS.items():
+        if v[2] == key: name = k
+    if name is None:
+        name = 't%d' % len(TRANS); TRANS[name] = ('acos', a, key)
+    r = RV({E: z3.Real(name)})
+    if a.tan is not None:
+        one_minus = sub(RV.const(1), mul(RV(dict(a.n), a.d), RV(dict(a.n), a.d), False), False)
+        s_ = sqrt(one_minus)                       # sqrt(1-u^2)
+        f = neg(inv(s_, False), False)             # -1/sqrt(1-u^2)
+        r.tan = {k: mul(v, f, False) for k, v in a.tan.items()}
     return r
 def gen_constraints():
     return [z3.And(v * v == P, v >= 0) for (v, P) in GENS.values()]
